@@ -326,6 +326,21 @@ fn run(line: &str) -> String {
             let f = f.vh_finalize();
             format!("{:e} {} {}", f.area(), fv(f.centroid()), fv(f.normal()))
         }
+        "cycle_history" => {
+            // cycle_history <period>: one SimpleCycle over 9 planes: init(6,7,8), then period-1 resets over planes 0..5, then init(0,1,2) and
+            // try_extend(6,1,0) -> "<Ok|Err> <len> <cycle..>"  (a fresh cycle gives Ok 4 with planes {0,1,2,6})
+            let period = a.u();
+            let mut c = vh::SimpleCycle::new(9);
+            c.init(6, 7, 8);
+            for k in 0..period - 1 {
+                let x = k % 4;
+                c.init(x, x + 1, x + 2);
+            }
+            c.init(0, 1, 2);
+            let r = c.try_extend(6, 1, 0);
+            let seq: Vec<String> = c.iter().take(c.len).map(|x| x.to_string()).collect();
+            format!("{} {} {}", if r.is_ok() { "Ok" } else { "Err" }, c.len, seq.join(" "))
+        }
         "polytope_ring" => {
             // polytope_ring <n>: two generators on the axis of a ring of n others (radii slightly varied); only the two axis cells are
             // constructed; with faces: every vertex in exactly three faces, V - E + F = 2, counts agree with the lists, the big faces have n vertices
